@@ -41,6 +41,12 @@ SCOPES = {
 }
 
 
+# properties whose code path runs through memoising methods of class Crystal without having a rule of their own for it
+# (C01, C03, C04, C10, C13 inherit C14's R14.2 under their own rule ids; C14 owns it)
+CRYSTAL_ON_PATH = {"C06": "Crystal.hirshfeld_surfaces / promolecule_density_isosurfaces", "C09": "crystal environments of the descriptor entry points",
+                   "C11": "Crystal.cartesian_symmetry_operations", "C05": "Crystal stockholder weight isosurfaces"}
+
+
 def declare(chk):
     mods, classes = SCOPES[chk.pid]
     rid = f"R{chk.pid[1:]}.9"
@@ -54,3 +60,6 @@ def run(chk):
     if chk.want(rid):
         mods, classes = SCOPES[chk.pid]
         cache_scope(chk, rid, mods, classes)
+        if chk.pid in CRYSTAL_ON_PATH:
+            from .c14 import crystal_memo_rule
+            crystal_memo_rule(chk, rid)
